@@ -36,6 +36,7 @@ CONSTANTS Qs,         \* set of qubit indices used by the generator (gaps allowe
           VarSet,     \* variational flags offered for parameterised gates, e.g. {FALSE} or {FALSE, TRUE}
           Mode,       \* "free": any gate may follow; "pairs": the 2nd gate acts on the same targets/controls as the 1st;
                       \* "sandwich": g1 ; p* ; m ; g' (see Sandwich below)
+          OuterMaxQ,  \* sandwich mode: maximal number of qubits of the outer gate g1
           Export      \* BOOLEAN
 
 \* named angle sets (cfg files cannot contain negative numbers)
@@ -47,8 +48,10 @@ PhaseKFull  == (-M)..(2 * M)
 PhaseKMid   == { -M, -1, 0, 1, 3, M \div 2, M - 1, M, M + 1 }
 PhaseKSmall == { -1, 0, 1, M \div 2, M }
 PhaseKTiny  == { 1, M - 1 }
-RotKGen     == { -2, 2, 6 }            \* generic (non-Clifford for M = 16) angles and one inverse pair
-PhaseKGen   == { -1, 1, 3 }
+RotKGen     == { -2, 2 }               \* a generic angle (pi/4 for M = 16) and its inverse
+PhaseKGen   == { -1, 1 }
+RotKGen3    == { -2, 2, 6 }
+PhaseKGen3  == { -1, 1, 3 }
 VarBoth     == {FALSE, TRUE}
 VarNo       == {FALSE}
 
@@ -92,12 +95,13 @@ RelatedName(a, b) == \/ a.name = b.name
                      \/ (a.name \in {"CNOT", "CX"} /\ b.name \in {"CNOT", "CX"})
                      \/ (a.name \in {"S", "T"} /\ b.name = "PHASE")
 SandwichStep(g) ==
-  IF Len(circ) = 0 THEN TRUE
+  IF Len(circ) = 0 THEN Cardinality(QSet(g)) <= OuterMaxQ
   ELSE IF ~HasM
        THEN \/ /\ Len(circ) <= MaxLen - 3                       \* p-gate
                /\ g.name \in Names0 /\ Len(g.c) = 0
                /\ QSet(g) \cap (QSet(circ[1]) \cup PQubits) = {}
-            \/ /\ QSet(g) \cap QSet(circ[1]) # {}               \* m
+            \/ /\ QSet(g) \cap QSet(circ[1]) # {}               \* m (one angle per parameterised name is enough here)
+               /\ g.k \in {0, 2} /\ ~g.v
                /\ Place(g) # Place(circ[1])
                /\ \A j \in 2..Len(circ) : QSet(g) \cap QSet(circ[j]) # {}
        ELSE /\ Len(circ) = MPos                                 \* g'
